@@ -5,6 +5,7 @@ package world
 import (
 	"context"
 	"fmt"
+	"github.com/zclconf/go-cty/cty/function"
 	"sort"
 
 	"github.com/hashicorp/hcl-lang/decoder"
@@ -105,8 +106,28 @@ func BuildPathContext(p model.PathM) *decoder.PathContext {
 	}
 	if p.Funcs != nil {
 		pc.Functions = make(map[string]schema.FunctionSignature, len(p.Funcs))
-		for n, f := range p.Funcs {
-			pc.Functions[n] = f.Build()
+		// All fixed parameters of a path live in one shared table and every signature is a
+		// sub-slice of it (with the rest of the table as spare capacity), the way a schema
+		// author slices prefixes of a common parameter list: appending to a signature's
+		// Params would overwrite the next function's parameters.
+		names := make([]string, 0, len(p.Funcs))
+		for n := range p.Funcs {
+			names = append(names, n)
+		}
+		sort.Strings(names)
+		var table []function.Parameter
+		offs := map[string][2]int{}
+		for _, n := range names {
+			fs := p.Funcs[n].Build()
+			offs[n] = [2]int{len(table), len(table) + len(fs.Params)}
+			table = append(table, fs.Params...)
+		}
+		for _, n := range names {
+			fs := p.Funcs[n].Build()
+			if o := offs[n]; o[1] > o[0] {
+				fs.Params = table[o[0]:o[1]]
+			}
+			pc.Functions[n] = fs
 		}
 	}
 	if p.Validators {
